@@ -21,10 +21,13 @@ META = {
             "FLOAT POWER: while extracting every solution kernel for nf 3-6, a fractional power or sqrt/log whose base is a real-"
             "typed constant of the configuration must not be negative: Python promotes float**0.5 to complex, numba types it "
             "float64 and yields NaN. (5) FROZEN GLOBALS: module-level names read by compiled functions are compile-time "
-            "constants for numba; no function may rebind them. (6) jitclass specs declare every attribute assigned in __init__.",
+            "constants for numba; no function may rebind them. (6) jitclass specs declare every attribute assigned in __init__. (7) "
+            "SPECIAL POINTS: numba raises ZeroDivisionError for scalar float division where NumPy arithmetic under the interpreter "
+            "continues with inf/nan; every compiled function that singles out a scalar input (`if t == 0.5`) is partially evaluated "
+            "AT that input and must not execute a division by an exactly vanishing denominator there.",
     "note": "These are the compile-time conditions for agreement; equality of floating-point values of compiled and interpreted "
             "code is not decided (numba itself is trusted). numba is not imported or run.",
-    "technique": "call-graph closure + typing/effect lints on the AST of compiled functions + sign analysis of real-typed powers during partial evaluation",
+    "technique": "call-graph closure + typing/effect lints on the AST of compiled functions + sign analysis of real-typed powers during partial evaluation + partial evaluation of compiled functions at their special-cased scalar inputs (division by an exact zero)",
     "engine": "sa",
 }
 
